@@ -41,6 +41,7 @@ def cases(tier, rng, run):
         if "|set:" in line:
             out.append(Case(line, "prov-history"))
             k += 1
+    out += [Case(l, "prov-history") for l in c12.live_view_histories()]
     return out
 
 
